@@ -174,6 +174,46 @@ def divergent_case(col):
         col.add({"sig": f"native::da::divergent::{kind}", "what": f"{kind}: {bad}", "input": {"kernel": kind, "target": "normal with a stiff wall", "divergent_transitions_with_positive_acceptance": n_div}} if bad else None)
 
 
+def failed_evaluation_case(col):
+    """RW / MH / IWLS on a target that is NaN outside its support (log x - x on x > 0, sampled on the original scale): proposals with an undefined
+    log-density are reported with acceptance probability 0 and error code 90 - the dual averaging follows the recurrence for THOSE reported
+    acceptance probabilities like for any other (the property conditions on nothing else)"""
+    model = gs.DictInterface(lambda s: jnp.sum(jnp.log(s["x"]) - s["x"]))
+
+    def prop(key, ms, step):
+        return gs.MHProposal({"x": ms["x"] + step * jax.random.normal(key, ms["x"].shape)}, 0.0)
+
+    for kind, make in (("RW", lambda: gs.RWKernel(["x"], initial_step_size=8.0)), ("MH", lambda: gs.MHKernel(["x"], prop, initial_step_size=8.0, da_tune_step_size=True)), ("IWLS", lambda: gs.IWLSKernel(["x"], initial_step_size=8.0))):
+        k = make()
+        k.set_model(model)
+        key = jax.random.PRNGKey(11)
+        ms = {"x": jnp.array([0.5], jnp.float32)}
+        ks = k.init_state(key, ms)
+        ep = EpochConfig(EpochType.FAST_ADAPTATION, 30, 1, None).to_state(1, 0)
+        ks = k.start_epoch(key, ks, ms, ep)
+        ref = Ref(float(ks.step_size), k.da_target_accept, k.da_gamma, k.da_kappa, k.da_t0)
+        ref.restart(float(ks.step_size))
+        trans = jax.jit(k.transition)
+        bad, n_err = None, 0
+        for t in range(30):
+            key, sub = jax.random.split(key)
+            out = trans(sub, ks, ms, ep)
+            ks, ms = out.kernel_state, out.model_state
+            a = float(out.info.acceptance_prob)
+            n_err += int(int(out.info.error_code) != 0)
+            ref.step(a)
+            if not (close(ks.step_size, ref.eps) and close(ks.log_avg_step_size, ref.log_eps_bar)):
+                bad = f"t={t}: reported acceptance probability {a:.4f} (error code {int(out.info.error_code)}): step size {float(ks.step_size)} vs the recurrence {ref.eps}"
+                break
+            ep.advance_time(1)
+        if bad is None:
+            ks = k.end_epoch(key, ks, ms, ep)
+            ref.finalize()
+            if not close(ks.step_size, ref.eps):
+                bad = f"end of epoch: step size {float(ks.step_size)} vs the averaged iterate {ref.eps}"
+        col.add({"sig": f"native::da::failed_evaluations::{kind}", "what": f"{kind}: {bad}", "input": {"kernel": kind, "target": "log x - x, NaN for x < 0", "transitions_with_error_code": n_err}} if bad else None)
+
+
 def bounded(tier, seed):
     rng = np.random.default_rng(seed)
     col = util.Collector()
@@ -181,6 +221,10 @@ def bounded(tier, seed):
         divergent_case(col)
     except Exception as e:
         col.add({"sig": f"native::da::exception::{type(e).__name__}", "what": str(e)[:200], "input": {"scenario": "divergent transitions"}})
+    try:
+        failed_evaluation_case(col)
+    except Exception as e:
+        col.add({"sig": f"native::da::exception::{type(e).__name__}", "what": str(e)[:200], "input": {"scenario": "proposals with an undefined log-density"}})
     n_seq, length = (12, 15) if tier == "quick" else (300, 60)
     da_sequences(col, rng, n_seq, length)
     kernel_runs(col, rng, tier)
@@ -189,7 +233,7 @@ def bounded(tier, seed):
         "distinct_nontrivial": col.evals,
         "rule": (f"BOUNDED: real da_init/da_step/da_finalize on {n_seq} seeded (eps0, delta, gamma, kappa, t0, alpha sequence of length {length}) x 2 epochs "
                  "against a float64 reference of H&G Alg. 5 (relative tolerance 2e-4, float32 code), with a monotonicity probe at every step; "
-                 "the five adapting kernels (RW, IWLS, HMC, NUTS, MH with tuning) driven through FAST/SLOW/BURNIN/POSTERIOR epochs on a Gaussian dict model, once as constructed and once with the da_* attributes re-assigned after construction; NUTS and HMC on a target with a stiff wall (divergent transitions with positive acceptance probability). "
+                 "the five adapting kernels (RW, IWLS, HMC, NUTS, MH with tuning) driven through FAST/SLOW/BURNIN/POSTERIOR epochs on a Gaussian dict model, once as constructed and once with the da_* attributes re-assigned after construction; NUTS and HMC on a target with a stiff wall (divergent transitions with positive acceptance probability); RW, MH and IWLS on a target that is NaN outside its support (transitions with error code 90 and reported acceptance probability 0). "
                  "Each sequence / kernel run is one distinct case."),
         "samples": [{"kernel": "NUTS", "epochs": ["FAST", "SLOW", "BURNIN", "POSTERIOR"]}],
         "exhaustive": False,
